@@ -200,6 +200,34 @@ func c17StdHook(ev *c17Eval, call *ast.CallExpr, env *c17Env) (c17V, bool) {
 		return c17BoolV(strings.Contains(str(0), str(1))), true
 	case objIs(o, "strings", "", "HasPrefix"):
 		return c17BoolV(strings.HasPrefix(str(0), str(1))), true
+	case objIs(o, "strings", "", "HasSuffix"):
+		return c17BoolV(strings.HasSuffix(str(0), str(1))), true
+	case objIs(o, "strings", "", "ContainsAny"):
+		return c17BoolV(strings.ContainsAny(str(0), str(1))), true
+	case objIs(o, "strings", "", "Index"):
+		return c17IntV(int64(strings.Index(str(0), str(1)))), true
+	case objIs(o, "strings", "", "Count"):
+		return c17IntV(int64(strings.Count(str(0), str(1)))), true
+	case objIs(o, "strings", "", "TrimSpace"):
+		return c17StrV(strings.TrimSpace(str(0))), true
+	case objIs(o, "strings", "", "ContainsRune"), objIs(o, "strings", "", "IndexRune"), objIs(o, "strings", "", "IndexByte"):
+		r := ev.eval(call.Args[1], env)
+		if r.k != c17Int {
+			ev.fail(call, "%s with a non-constant rune/byte", o.Name())
+		}
+		var idx int
+		if o.Name() == "IndexByte" {
+			idx = strings.IndexByte(str(0), byte(r.i))
+		} else {
+			idx = strings.IndexRune(str(0), rune(r.i))
+		}
+		if o.Name() == "ContainsRune" {
+			return c17BoolV(idx >= 0), true
+		}
+		return c17IntV(int64(idx)), true
+	case objIs(o, "bytes", "", "Equal"):
+		// on modelled byte strings (an element of the list, or []byte(<string>)) equality is equality of the content
+		return c17BoolV(str(0) == str(1)), true
 	case objIs(o, "strings", "", "Replace"):
 		n := ev.eval(call.Args[3], env)
 		if n.k != c17Int {
@@ -693,13 +721,17 @@ type c17Finding struct {
 	what string
 }
 
-func c17IsCtxDone(info *types.Info, e ast.Expr, ctx types.Object) bool {
-	// <-ctx.Done()
+func c17IsCtxDone(info *types.Info, e ast.Expr, ctx types.Object, defs defMap) bool {
+	// <-ctx.Done(), or <-done with the single-definition local `done := ctx.Done()`
 	u, ok := unparen(e).(*ast.UnaryExpr)
 	if !ok || u.Op != token.ARROW {
 		return false
 	}
-	call, ok := unparen(u.X).(*ast.CallExpr)
+	ch := unparen(u.X)
+	if defs != nil {
+		ch = defs.resolve1(info, ch)
+	}
+	call, ok := ch.(*ast.CallExpr)
 	if !ok {
 		return false
 	}
@@ -716,7 +748,7 @@ func c17IsCtxDone(info *types.Info, e ast.Expr, ctx types.Object) bool {
 //   - select { case <-ctx.Done(): <terminates> ; default: ... node ... }
 //   - an earlier statement of the loop body:  if ctx.Err() != nil { <terminates> }  or
 //     select { case <-ctx.Done(): <terminates>; default: }
-func c17Guarded(info *types.Info, stack []ast.Node, loopIdx int, ctx types.Object) bool {
+func c17Guarded(info *types.Info, stack []ast.Node, loopIdx int, ctx types.Object, defs defMap) bool {
 	if ctx == nil {
 		return false
 	}
@@ -735,7 +767,7 @@ func c17Guarded(info *types.Info, stack []ast.Node, loopIdx int, ctx types.Objec
 					rx = s.Rhs[0]
 				}
 			}
-			if rx != nil && c17IsCtxDone(info, rx, ctx) && c17Leaves(cc.Body) {
+			if rx != nil && c17IsCtxDone(info, rx, ctx, defs) && c17Leaves(cc.Body) {
 				return true
 			}
 		}
@@ -774,20 +806,62 @@ func c17Guarded(info *types.Info, stack []ast.Node, loopIdx int, ctx types.Objec
 				return true
 			}
 		case *ast.IfStmt:
-			if x.Init == nil && c17Leaves(x.Body.List) {
-				if b, ok := unparen(x.Cond).(*ast.BinaryExpr); ok && b.Op == token.NEQ {
-					if call, ok := unparen(b.X).(*ast.CallExpr); ok && objIs(callee(info, call), "context", "Context", "Err") {
-						if se, ok := unparen(call.Fun).(*ast.SelectorExpr); ok {
-							if id, ok := unparen(se.X).(*ast.Ident); ok && info.ObjectOf(id) == ctx {
-								return true
-							}
-						}
-					}
-				}
+			if c17Leaves(x.Body.List) && c17IsCtxErrTest(info, x, ctx) {
+				return true
 			}
 		}
 	}
 	return false
+}
+
+// c17IsCtxErrTest: the if statement tests `ctx.Err() != nil` — operands in either order, the call
+// written in the condition or bound by the statement's own init (`if err := ctx.Err(); err != nil`).
+func c17IsCtxErrTest(info *types.Info, is *ast.IfStmt, ctx types.Object) bool {
+	isErrCall := func(e ast.Expr) bool {
+		call, ok := unparen(e).(*ast.CallExpr)
+		if !ok || !objIs(callee(info, call), "context", "Context", "Err") {
+			return false
+		}
+		se, ok := unparen(call.Fun).(*ast.SelectorExpr)
+		if !ok {
+			return false
+		}
+		id, ok := unparen(se.X).(*ast.Ident)
+		return ok && info.ObjectOf(id) == ctx
+	}
+	isNil := func(e ast.Expr) bool {
+		id, ok := unparen(e).(*ast.Ident)
+		if !ok {
+			return false
+		}
+		_, isN := info.ObjectOf(id).(*types.Nil)
+		return isN
+	}
+	b, ok := unparen(is.Cond).(*ast.BinaryExpr)
+	if !ok || b.Op != token.NEQ {
+		return false
+	}
+	subject := b.X
+	switch {
+	case isNil(b.Y):
+	case isNil(b.X):
+		subject = b.Y
+	default:
+		return false
+	}
+	if is.Init == nil {
+		return isErrCall(subject)
+	}
+	as, ok := is.Init.(*ast.AssignStmt)
+	if !ok || as.Tok != token.DEFINE || len(as.Lhs) != 1 || len(as.Rhs) != 1 || !isErrCall(as.Rhs[0]) {
+		return false
+	}
+	if isErrCall(subject) {
+		return true
+	}
+	lid, ok1 := as.Lhs[0].(*ast.Ident)
+	sid, ok2 := unparen(subject).(*ast.Ident)
+	return ok1 && ok2 && info.Defs[lid] != nil && info.ObjectOf(sid) == info.Defs[lid]
 }
 
 // c17Leaves: the statement list ends by leaving the function or the loop (return / break / goto).
@@ -813,6 +887,7 @@ func (c *Ctx) c17Discipline(pk *packages.Package, fname string, body ast.Node, c
 	if depth > 6 {
 		return []c17Finding{{false, fname + ": callback handed on through more than 6 functions"}}
 	}
+	defs := localDefs(info, body)
 	walkStack(body, func(n ast.Node, stack []ast.Node) bool {
 		id, ok := n.(*ast.Ident)
 		if !ok || info.Uses[id] != cb {
@@ -843,10 +918,10 @@ func (c *Ctx) c17Discipline(pk *packages.Package, fname string, body ast.Node, c
 			if litIdx >= 0 {
 				// invoked from a wrapper closure: the wrapper is the callback from here on
 				lit := stack[litIdx].(*ast.FuncLit)
-				guarded := loopIdx >= 0 && c17Guarded(info, stack[:len(stack)-1], loopIdx, ctx)
+				guarded := loopIdx >= 0 && c17Guarded(info, stack[:len(stack)-1], loopIdx, ctx, defs)
 				if !guarded && loopIdx < 0 {
 					// does the wrapper itself test the context before invoking?
-					guarded = c17GuardedInLit(info, lit, call, ctx)
+					guarded = c17GuardedInLit(info, lit, call, ctx, defs)
 				}
 				if guarded {
 					return true
@@ -857,7 +932,7 @@ func (c *Ctx) c17Discipline(pk *packages.Package, fname string, body ast.Node, c
 			if loopIdx < 0 {
 				return true // a single invocation
 			}
-			if !c17Guarded(info, stack[:len(stack)-1], loopIdx, ctx) {
+			if !c17Guarded(info, stack[:len(stack)-1], loopIdx, ctx, defs) {
 				if ctx != nil && mentions(info, stack[loopIdx], ctx) {
 					out = append(out, c17Finding{false, fmt.Sprintf("%s (%s): the loop mentions the context but not in a recognised cancellation idiom (select on <-ctx.Done() with the callback in the default arm, or an earlier `if ctx.Err() != nil {return}`)", fname, c.pos(call.Pos()))})
 				} else {
@@ -889,7 +964,7 @@ func (c *Ctx) c17Discipline(pk *packages.Package, fname string, body ast.Node, c
 
 // c17GuardedInLit: inside the wrapper literal the invocation sits in the default arm of a
 // select on <-ctx.Done() (or after an `if ctx.Err() != nil {return}`).
-func c17GuardedInLit(info *types.Info, lit *ast.FuncLit, call *ast.CallExpr, ctx types.Object) bool {
+func c17GuardedInLit(info *types.Info, lit *ast.FuncLit, call *ast.CallExpr, ctx types.Object, defs defMap) bool {
 	if ctx == nil {
 		return false
 	}
@@ -900,7 +975,7 @@ func c17GuardedInLit(info *types.Info, lit *ast.FuncLit, call *ast.CallExpr, ctx
 		}
 		// reuse c17Guarded with a pseudo loop = the literal's body block
 		full := append([]ast.Node{&ast.ForStmt{Body: lit.Body}}, stack...)
-		ok = c17Guarded(info, full, 0, ctx)
+		ok = c17Guarded(info, full, 0, ctx, defs)
 		return false
 	})
 	return ok
